@@ -82,6 +82,7 @@ StrShapes(kind, t) ==
 SourceShapes == { <<"plain", [k |-> "source", p |-> [content |-> Nlv(<<LR(NilTag, "# md")>>), mediaType |-> Str("text/markdown")]]>>,
                   <<"content-only", [k |-> "source", p |-> [content |-> Nlv(<<LR(NilTag, "src")>>)]]>>,
                   <<"multi", [k |-> "source", p |-> [content |-> Nlv(<<LR("en", "src"), LR("fr", "srcfr")>>), mediaType |-> Str("text/plain")]]>>,
+                  <<"empty-content", [k |-> "source", p |-> [content |-> Nlv(<<LR(NilTag, "")>>), mediaType |-> Str("text/markdown")]]>>,   \* what "content":"" decodes to
                   <<"mime-param", [k |-> "source", p |-> [content |-> Nlv(<<LR(NilTag, "# md")>>), mediaType |-> Str("text/markdown; charset=\"utf-8\"")]]>> }
 EndpointsShapes == { <<"ep-" \o EndpointsProps[i].t, [k |-> "endpoints", p |-> [x \in {EndpointsProps[i].t} |-> I1]]>> : i \in 1..Len(EndpointsProps) }
                    \cup { <<"ep-all", [k |-> "endpoints", p |-> [x \in Terms(EndpointsProps) |-> Iri(Base \o "ep/" \o x)]]>> }
